@@ -23,6 +23,11 @@ type SlotScope struct {
 	// Slots maps slot names to their content.
 	// Empty string key is the default slot.
 	Slots map[string]*SlotContent
+
+	// outer is the slot scope that was current where the component was included.
+	// The content supplied to the component was written there, so a <slot> inside
+	// that content is looked up in outer, not in the component's own scope.
+	outer *SlotScope
 }
 
 // NewSlotScope creates a new SlotScope for a component.
@@ -88,7 +93,7 @@ func (v *Vue) evalSlot(ctx VueContext, node *html.Node, slotScope *SlotScope) ([
 			// The content was written by the user of the component: a <slot> inside it
 			// belongs to the user's template, not to this component (where it would
 			// find this very content again, without end).
-			ctx.SlotScope = nil
+			ctx.SlotScope = slotScope.outer
 
 			// If the slot content is a template with v-slot, evaluate it with the props
 			if slotContent.TemplateNode != nil {
